@@ -276,7 +276,7 @@ def build(recipe):
             if op == "SQUEEZE":
                 add_op(BO[op], [x["t"]], [y["t"]], ("SqueezeOptions", {"SqueezeDims": np.array(L.get("dims", []), np.int32)}))
             else:
-                at = add_tensor(nm + "_axis", [1], "int32", None, np.array([L["axis"]], np.int32))
+                at = add_tensor(nm + "_axis", [1], "int32", None, np.array([L["axis"] - len(shp) if L.get("axis_neg") else L["axis"]], np.int32))
                 add_op(BO[op], [x["t"], at], [y["t"]], ("ExpandDimsOptions", {}))
         elif op == "CONCATENATION":
             ax = L["axis"]
@@ -285,7 +285,7 @@ def build(recipe):
                 raise ValueError("CONCATENATION shape mismatch")
             shp[ax] = sum(v["shape"][ax] for v in ins)
             y = new_value(nm, shp, x["dtype"], oq)
-            add_op(BO[op], [v["t"] for v in ins], [y["t"]], ("ConcatenationOptions", {"Axis": ax, "FusedActivationFunction": act}))
+            add_op(BO[op], [v["t"] for v in ins], [y["t"]], ("ConcatenationOptions", {"Axis": ax - len(shp) if L.get("axis_neg") else ax, "FusedActivationFunction": act}))
         elif op == "PAD":
             pads = L["pads"]
             pt = add_tensor(nm + "_pads", [len(pads), 2], "int32", None, np.array(pads, np.int32))
@@ -295,7 +295,7 @@ def build(recipe):
         elif op == "MEAN":
             axes = L["axes"]
             keep = L.get("keepdims", True)
-            at = add_tensor(nm + "_axes", [len(axes)], "int32", None, np.array(axes, np.int32))
+            at = add_tensor(nm + "_axes", [len(axes)], "int32", None, np.array([a - len(x["shape"]) for a in axes] if L.get("axis_neg") else axes, np.int32))
             shp = [1 if i in axes else s for i, s in enumerate(x["shape"])] if keep else [s for i, s in enumerate(x["shape"]) if i not in axes]
             y = new_value(nm, shp, x["dtype"], oq)
             add_op(BO[op], [x["t"], at], [y["t"]], ("ReducerOptions", {"KeepDims": keep}))
@@ -312,7 +312,7 @@ def build(recipe):
             ax, n = L["axis"], L["n"]
             if x["shape"][ax] % n or x["shape"][ax] < n:
                 raise ValueError("SPLIT not divisible")
-            at = add_tensor(nm + "_axis", [], "int32", None, np.array([ax], np.int32))
+            at = add_tensor(nm + "_axis", [1] if L.get("axis_vec") else [], "int32", None, np.array([ax - len(x["shape"]) if L.get("axis_neg") else ax], np.int32))
             shp = list(x["shape"])
             shp[ax] //= n
             outs = [new_value(f"{nm}_{j}", shp, x["dtype"], x["q"]) for j in range(n)]
@@ -356,7 +356,7 @@ def build(recipe):
             shp = list(x["shape"])
             shp[L["axis"]] = len(idx)
             y = new_value(nm, shp, x["dtype"], x["q"])
-            add_op(BO[op], [x["t"], it], [y["t"]], ("GatherOptions", {"Axis": L["axis"], "BatchDims": 0}))
+            add_op(BO[op], [x["t"], it], [y["t"]], ("GatherOptions", {"Axis": L["axis"] - len(x["shape"]) if L.get("axis_neg") else L["axis"], "BatchDims": 0}))
         elif op == "TRANSPOSE":
             perm = L["perm"]
             pt = add_tensor(nm + "_perm", [len(perm)], "int32", None, np.array(perm, np.int32))
@@ -367,18 +367,18 @@ def build(recipe):
             shp = list(x["shape"])
             shp.insert(ax, len(ins))
             y = new_value(nm, shp, x["dtype"], x["q"])
-            add_op(BO[op], [v["t"] for v in ins], [y["t"]], ("PackOptions", {"ValuesCount": len(ins), "Axis": ax}))
+            add_op(BO[op], [v["t"] for v in ins], [y["t"]], ("PackOptions", {"ValuesCount": len(ins), "Axis": ax - len(shp) if L.get("axis_neg") else ax}))
         elif op == "UNPACK":
             ax = L["axis"]
             n = x["shape"][ax]
             shp = [s_ for i_, s_ in enumerate(x["shape"]) if i_ != ax]
             outs = [new_value(f"{nm}_{j}", shp, x["dtype"], x["q"]) for j in range(n)]
-            add_op(BO[op], [x["t"]], [o["t"] for o in outs], ("UnpackOptions", {"Num": n, "Axis": ax}))
+            add_op(BO[op], [x["t"]], [o["t"] for o in outs], ("UnpackOptions", {"Num": n, "Axis": ax - len(x["shape"]) if L.get("axis_neg") else ax}))
         elif op == "CAST":
             y = new_value(nm, x["shape"], L["odtype"], None)
             add_op(BO[op], [x["t"]], [y["t"]], ("CastOptions", {"InDataType": TTYPE[x["dtype"]], "OutDataType": TTYPE[L["odtype"]]}))
         elif op == "ARG_MAX":
-            at = add_tensor(nm + "_axis", [], "int32", None, np.array([L.get("axis", 3)], np.int32))
+            at = add_tensor(nm + "_axis", [], "int32", None, np.array([L.get("axis", 3) - len(x["shape"]) if L.get("axis_neg") else L.get("axis", 3)], np.int32))
             y = new_value(nm, x["shape"][:-1], "int32", None)
             add_op(BO[op], [x["t"], at], [y["t"]], ("ArgMaxOptions", {"OutputType": TT["INT32"]}))
         else:
@@ -481,6 +481,8 @@ def gen_recipe(r, cfg=None, profile="mixed"):
         for v in L["in"]:
             vals[v]["uses"] += 1
         L["seed"] = r.randrange(1 << 30)
+        if L["op"] in ("CONCATENATION", "SPLIT", "PACK", "UNPACK", "MEAN", "ARG_MAX") and r.random() < 0.25:
+            L["axis_neg"] = True  # the same axis written as a negative number
         layers.append(L)
         ids = []
         for _ in range(n_out):
@@ -1197,6 +1199,10 @@ def gen_corner_recipe(r):
     outs = list(range(n_in, nvals))
     for L in layers:
         L["seed"] = r.randrange(1 << 30)
+        if L["op"] in ("CONCATENATION", "MEAN", "SPLIT", "PACK", "UNPACK", "EXPAND_DIMS", "ARG_MAX", "GATHER") and r.random() < 0.35:
+            L["axis_neg"] = True  # the same axis counted from the end
+        if L["op"] == "SPLIT" and r.random() < 0.2:
+            L["axis_vec"] = True  # axis stored as a tensor with one element instead of a scalar
     return dict(name="corner", inputs=inputs, layers=layers, outputs=outs, dup_names=r.random() < 0.1)
 
 
